@@ -11,7 +11,7 @@ from . import c03 as A
 ID = 'C08'
 TITLE = 'timeseries operators equal the pointwise operation on aligned operands'
 LEAN_FILES = ['Basic', 'TSBasic', 'Fill', 'FillDriver', 'Align', 'AlignDriver', 'Ops', 'OpsF', 'OpsX', 'OpsDriver', 'FillLemmas', 'AlignLemmas', 'OpsLemmas',
-              'OpsFLemmas', 'C08']
+              'OpsFLemmas', 'OpsXLemmas', 'C08']
 RULE = ('distinct protocol lines (operator / aggregate, operands, index policy, fill method) on which the implementation returned a '
         'value and at least two Series operands with different indices are involved')
 TRUSTED = ['correspondence harness (pv.engine, pv.proto, pv.props._w5ts) and generators of pv.props.c08',
@@ -19,8 +19,12 @@ TRUSTED = ['correspondence harness (pv.engine, pv.proto, pv.props._w5ts) and gen
 ASSUMPTIONS = ['pandas arithmetic of two Series on one index is pointwise with NaN absorbing, a scalar broadcasts, x/NaN = NaN (reference kernel of PygModel/Ops.lean, sampled)',
                'alignment is the model of C03 (Index.intersection/union, reindex, as-of fill)',
                'values are exact multiples of 1/4 and divisors powers of two (means: multiples of 3/4), so no rounded float is ever compared; float rounding is not modelled',
-               'DataFrame operands (column policies ij/oj, neutral element of a missing column) are not in the Lean model: they are checked on the implementation '
-               'against the python reference in laws(); pow_, comparisons, min_/max_, df_std are not modelled']
+               'DataFrames: `DataFrame.reindex(index[, method])` picks one source row per label for all columns (after `_nona` dropped the all-NaN rows when a fill '
+               'method is given); `pd.DataFrame(dict of Series)`; the name of `x op y` is the common Series name or None (PygModel/OpsF.lean, sampled)',
+               'comparisons with NaN are False, np.minimum/np.maximum propagate NaN, x**0 = 1 and 1**y = 1 also for NaN (PygModel/OpsX.lean, sampled)',
+               'not modelled: frames with duplicate column names / numpy arrays (positional columns), the column policies lj/rj, the object-dtype empty `pd.Series({})` '
+               '(no common column) fed on into an operator with a fill method, DataFrame operands of pow_/comparisons/min_/max_, negative or fractional exponents, '
+               'df_std, aggregates over a mix of frames and Series, float rounding']
 S = 4
 nan = float('nan')
 VALS = [0.0, 0.0, 1.0, -1.0, 2.0, 0.5, -0.25, 3.0, 1.5]
@@ -472,6 +476,22 @@ def laws(rng, tier, ctx):
         bad = check_frames(op, fa, fb, how, cols)
         if bad:
             yield Finding('violation', case, bad)
+            continue
+        if op in ('add', 'mul'):       # theorems add_comm_frames / mul_comm_frames, reduce_left_frames
+            f = _fn(op + '_')
+            line = lambda a, b: '(ops binf %s %s %s %s N %s)' % (op, enc_in(a), enc_in(b), how, cols)
+            res, rev = f(fa, fb, join=how, columns=cols), f(fb, fa, join=how, columns=cols)
+            count += 1
+            if enc_out(res) != enc_out(rev):
+                yield Finding('violation', dict(tag='law-comm-frames', lines=[line(fa, fb), line(fb, fa)], atomic=True), '%s_ is not commutative on these frames' % op)
+            days_c = A.rand_days(rng, 'overlap', [])
+            cc = rng.choice([['a', 'b'], ['b', 'c'], ['b', 'a', 'd']])
+            fc = rand_frame(rng, days_c, VALS, cc)
+            if isinstance(res, pd.DataFrame):
+                lst, step = f([fa, fb, fc], join=how, columns=cols), f(res, fc, join=how, columns=cols)
+                count += 1
+                if enc_out(lst) != enc_out(step):
+                    yield Finding('violation', dict(tag='law-reduce-frames', lines=[line([fa, fb, fc], None)]), 'a list of frames is not reduced left to right')
     # aggregates
     for _ in range(n // 2):
         g = rng.choice(['sum', 'mean', 'count'])
@@ -490,6 +510,33 @@ def laws(rng, tier, ctx):
             exp.append(float(len(vs)) if g == 'count' else nan if not vs else sum(vs) if g == 'sum' else sum(vs) / len(vs))
         if not (isinstance(res, pd.Series) and list(res.index) == list(idx) and A.same_vals(list(map(float, res.values)), exp)):
             yield Finding('violation', case, 'df_%s: got %s, the statement gives %s on %s' % (g, enc_out(res) if isinstance(res, pd.Series) else res, exp, [t.day for t in idx]))
+    # aggregates on frames: union index, union of the columns, NaN-skipping cell by cell (theorems aggF_value, aggF_no_data)
+    for _ in range(n // 2):
+        g = rng.choice(['sum', 'mean', 'count'])
+        k = rng.choice([2, 3])
+        days, rel = rand_fdays(rng, k)
+        cs, crel = rand_colsets(rng, k)
+        fs = [rand_frame(rng, days[j], MEANV if g == 'mean' else VALS, cs[j]) for j in range(k)]
+        case = dict(tag='law-aggf', lines=['(ops aggf %s %s oj N oj)' % (g, enc_in(fs))])
+        try:
+            res = _fn('df_' + g)(fs)
+        except Exception as e:
+            yield Finding('violation', case, 'df_%s on frames raised %s: %s' % (g, type(e).__name__, str(e)[:100]))
+            continue
+        count += 1
+        idx = A.expected_index(fs, 'oj')
+        want_cols = sorted(set(c for f in fs for c in f.columns))
+        if not (isinstance(res, pd.DataFrame) and sorted(res.columns) == want_cols and list(res.index) == list(idx)):
+            yield Finding('violation', case, 'df_%s on frames: wrong header / index: %s' % (g, enc_out(res, True) if isinstance(res, pd.DataFrame) else type(res).__name__))
+            continue
+        for c in want_cols:
+            exp = []
+            for t in idx:
+                vs = [float(f.at[t, c]) for f in fs if c in f.columns and t in f.index and not _isnan(float(f.at[t, c]))]
+                exp.append(float(len(vs)) if g == 'count' else nan if not vs else sum(vs) if g == 'sum' else sum(vs) / len(vs))
+            if not A.same_vals(list(map(float, res[c].values)), exp):
+                yield Finding('violation', case, 'df_%s column %s: got %s, the statement gives %s' % (g, c, list(res[c].values), exp))
+                break
     yield count
 
 
